@@ -166,7 +166,9 @@ func (v *inputFieldDefaultInjectionVisitor) processObjectOrListInput(fieldType i
 	if !found {
 		return defaultValue, false, nil
 	}
-	if node.Kind == ast.NodeKindScalarTypeDefinition {
+	if node.Kind != ast.NodeKindInputObjectTypeDefinition {
+		// only input objects have fields to inject defaults into; node.Ref of a scalar or an
+		// enum must not be used as an index into InputObjectTypeDefinitions
 		return defaultValue, false, nil
 	}
 	finalVal := defaultValue
